@@ -76,4 +76,8 @@ PROPS = {
         "level": "exploration", "quick_s": 30, "thorough_s": 600, "thorough_seeds": 4,
         "rule": "event-based gateway with 2..3 alternatives (signal / message catch events, each followed by its own task and end event), optionally behind a task; event plans: non-empty sequences (length 1..4) over the competing events plus a stranger, delivered one at a time at quiescent moments (exact model) or from separate goroutines at the same moment once all alternatives are armed; later deliveries of losing events included; oracle: exactly one branch task, only for a delivered event, one determination, completion, every ConsumeEvent returns; distinct = schedule hash; non-trivial = a context switch",
     },
+    "C10": {
+        "level": "exploration", "quick_s": 30, "thorough_s": 600, "thorough_seeds": 4,
+        "rule": "host task with 1..2 boundary events (interrupting / non-interrupting), separate tasks and end events on the normal and on each exception path, optionally a task before the host (events before activation) or two tokens inside the host; plans: 0..4 events (matching, non-matching, repeated) interleaved with the host's answer at quiescent moments, or the answer issued immediately after an event; oracle: token game with boundary semantics; several clauses are open known findings (see known_findings.json); distinct = schedule hash; non-trivial = an event delivered and a context switch",
+    },
 }
